@@ -188,6 +188,9 @@ def _build_eomonth(args: list) -> exp.LastDay:
 
 
 def _build_hashbytes(args: list) -> exp.Expr:
+    if len(args) != 2:
+        return exp.func("HASHBYTES", *args)
+
     kind, data = args
     kind = kind.name.upper() if kind.is_string else ""
 
